@@ -761,6 +761,95 @@ def _never_killed(g, d, val, defs, passed):
     return True
 
 
+def _cond_key(c):
+    """(key, polarity): `a != b` is the negation of `a == b`, `not x` of x"""
+    if c[0] == 'op' and c[1] == '!=' and len(c) == 4:
+        return ('op', '==') + c[2:], False
+    if c[0] == 'op' and c[1] == 'not' and len(c) == 3:
+        k, p = _cond_key(c[2])
+        return k, not p
+    return c, True
+
+
+def _thread_correlated_branches(g, outputs, lang):
+    """A branch re-tests a condition over variables that nothing in the unit can write (not assigned, not passed to a callee that
+    may write them, not an output/COMMON): on an incoming edge along which the outcome of that very condition is already
+    known on every path, the edge is redirected to the known successor (correlated-branch elimination).  Must-facts by forward
+    dataflow over edges; returns True when an edge was redirected."""
+    # like the constant/copy propagation of (c), callee effects are those declared in MODINFO: a variable is writable here only when
+    # a statement of the unit defines it or passes it at a position the callee may write
+    written = set()
+    for n in g.nodes:
+        d = node_def(n)
+        if d is not None:
+            written.add(d)
+    written |= _byref_vars(g, lang)
+    cand = {}
+    for n in g.nodes:
+        if n.kind == 'branch' and n.succ[0] != n.succ[1] and _pure(n.stmt[1]) and not (ir.vars_of(n.stmt[1]) & written) \
+                and ir.vars_of(n.stmt[1]):
+            cand[n.id] = _cond_key(n.stmt[1])
+    if not cand:
+        return False
+    keys = {k for k, p in cand.values()}
+    if len([1 for b in cand if True]) < 2 and len(keys) == len(cand):
+        return False
+    TOP = None
+    preds = g.preds()
+    order = g.rpo()
+    IN = {i: TOP for i in order}
+    IN[g.entry.id] = frozenset()
+
+    def edge_out(i, slot):
+        base = IN[i]
+        if base is TOP:
+            return TOP
+        if i in cand:
+            k, pol = cand[i]
+            truth = (slot == 0) == pol
+            return base | {(k, truth)}
+        return base
+    changed = True
+    while changed:
+        changed = False
+        for i in order:
+            if i == g.entry.id:
+                continue
+            acc = TOP
+            for p in preds[i]:
+                if p not in IN:
+                    continue
+                for slot, s_ in enumerate(g.nodes[p].succ):
+                    if s_ == i:
+                        o = edge_out(p, slot)
+                        if o is TOP:
+                            continue
+                        acc = o if acc is TOP else (acc & o)
+            if acc is not TOP and acc != IN[i]:
+                IN[i] = acc
+                changed = True
+    did = False
+    for b, (k, pol) in cand.items():
+        for p in preds[b]:
+            if p not in IN:
+                continue
+            pn = g.nodes[p]
+            for slot, s_ in enumerate(pn.succ):
+                if s_ != b:
+                    continue
+                o = edge_out(p, slot)
+                if o is TOP:
+                    continue
+                for truth in (True, False):
+                    if (k, truth) in o and not (p == b):
+                        tgt = g.nodes[b].succ[0 if truth == pol else 1]
+                        if pn.succ[slot] != tgt:
+                            pn.succ[slot] = tgt
+                            did = True
+                        break
+    return did
+
+
 def _eq_lit(c):
     """(variable, literal) of a pure test `v == k` / `k == v`"""
     if c[0] == 'op' and c[1] == '==' and len(c) == 4:
@@ -830,6 +919,8 @@ def normalise_cfg(g, outputs, notes, keep_vars=(), lang=None):
                         nb.succ = list(n.succ)
                         pn.succ = [nb.id]
                         changed = True
+        if not changed and _thread_correlated_branches(g, outputs, lang):
+            changed = True
         if changed:
             continue
         # (c) constants and copies
